@@ -26,6 +26,7 @@ structure Expect where
   sends : List (Nat × String) := []      -- (client, text), '/' = end of line; client 0 = console
   closed : List Nat := []                -- clients the script closes
   settle : Bool := true                  -- the history ends with enough idle cycles / ticks to drain everything
+  coCutoff : Nat := 0                    -- cycle of the second-to-last tick: call_outs scheduled later may stay pending
 
 def isCrash : Ev → Bool
   | .crash _ => true
@@ -99,6 +100,12 @@ def loggedOn (es : List Ev) : List Oid :=
 def finalSlots (es : List Ev) : Option Nat :=
   es.findSome? (fun e => match e with | .slots n => some n | _ => none)
 
+/-- the events before the marker of cycle `n` -/
+def beforeCycle (n : Nat) : List Ev → List Ev
+  | [] => []
+  | .cycle k :: es => if k ≥ n then [] else .cycle k :: beforeCycle n es
+  | e :: es => e :: beforeCycle n es
+
 def isPrefix (a b : List String) : Bool := a.length ≤ b.length && b.take a.length == a
 
 def isSubseq : List String → List String → Bool
@@ -113,7 +120,10 @@ def judgeEv (x : Expect) (es : List Ev) : List String :=
   let v1 := match ex with
     | none => ["liveness no-exit"]
     | some true =>
-      if x.console && !(destructedUsers es).isEmpty then [] else ["liveness unexpected-shutdown"]
+      -- stdin of the harness console is a pipe: losing the console user (destructed, or its connection rejected
+      -- by the master) is the documented shutdown request
+      if x.console && (!(destructedUsers es).isEmpty || (usersOfConnects es).contains none) then []
+      else ["liveness unexpected-shutdown"]
     | some false => []
   let v2 := if cyclesOk 1 es then [] else ["liveness cycle-markers"]
   let v3 := if reportOk es then [] else ["report uncaught error not reported to the master"]
@@ -140,7 +150,7 @@ def judgeEv (x : Expect) (es : List Ev) : List String :=
       if okI && isSubseq gotC gotI then none
       else some s!"commands {u.name} served={gotC} inputs={gotI} sent={want}")
   let v6 := if shut || !x.settle then [] else
-    es.filterMap (fun e => match e with
+    (beforeCycle x.coCutoff es).filterMap (fun e => match e with
       | .xCo o tag =>
         if es.contains (.tCo o tag) || es.any (fun d => match d with | .xDest _ t => t == o | _ => false)
         then none else some s!"callouts {o.name} {tag} never fired"
